@@ -17,8 +17,8 @@ r = sh("git -C %s diff --stat | tail -1" % wt)
 r = sh("cmake --build %s/_build -j12 2>&1 | tail -1 && ctest --test-dir %s/_build -j12 --timeout 900 2>&1 | tail -3" % (wt, wt))
 suite_ok = "100% tests passed" in r.stdout
 # 3. demo fails with the change, passes on the clean tree (/repo, which has a build)
-r1 = sh("sh %s/demo.sh %s" % (mut, wt), cwd=mut)
-r2 = sh("sh %s/demo.sh /repo" % mut, cwd=mut)
+r1 = sh("bash %s/demo.sh %s" % (mut, wt), cwd=mut)
+r2 = sh("bash %s/demo.sh /repo" % mut, cwd=mut)
 print("applies", applies, "suite_ok", suite_ok, "demo changed rc", r1.returncode, "demo clean rc", r2.returncode)
 ok = applies and suite_ok and r1.returncode != 0 and r2.returncode == 0
 if ok:
